@@ -259,10 +259,11 @@ pub fn shadows(ops: &[Op]) -> (Shadow, Shadow) {
 	let mut dur = Shadow::new();
 	for op in ops {
 		match op {
-			Op::Sync(p) | Op::Msync(p) =>
+			Op::Sync(p) =>
 				if let Some(f) = vol.get(p) {
 					dur.insert(p.clone(), f.clone());
 				},
+			Op::Msync(p, o, l) => crate::crash::msync_range(&vol, &mut dur, p, *o, *l),
 			Op::Mark(_) => (),
 			_ => {
 				apply(&mut vol, op);
@@ -307,11 +308,12 @@ pub fn enumerate(ctx: &Ctx, ops: &[Op], from: usize, lo_before: usize, lo_after_
 			}
 		}
 		match op {
-			Op::Sync(p) | Op::Msync(p) => {
+			Op::Msync(p, o, l) => crate::crash::msync_range(&vol, &mut dur, p, *o, *l),
+			Op::Sync(p) => {
 				if let Some(f) = vol.get(p) {
 					dur.insert(p.clone(), f.clone());
 				}
-				if matches!(op, Op::Sync(_)) && p.starts_with("log") && i >= from {
+				if p.starts_with("log") && i >= from {
 					lo = lo_after_sync;
 				}
 			},
